@@ -41,6 +41,8 @@ pub enum Op {
     Ping { conn: u8 },
     Reading { conn: u8, on: bool },
     FailSend { conn: u8, n: u8 },
+    /// `Clients::shutdown()` started as a background task (races with whatever follows)
+    Shutdown,
     /// 0 none, 1 one yield, 2 several yields, 3 sleep ms
     Pause { kind: u8, ms: u32 },
 }
@@ -322,6 +324,10 @@ impl World {
             "#{seq} send conn={conn} -> ident={dst_ident} len={len} ecn={ecn} seg={seg:?} tag={}",
             self.next_tag - 1
         ));
+        if frame.len() - 1 > 65_536 {
+            // the server's decoder rejects this frame and ends the *sender's* connection (legit)
+            self.conns[conn].ever_stalled = true;
+        }
         self.conns[conn].client.send(frame);
     }
 
@@ -375,14 +381,6 @@ impl World {
                 Rx::Undecodable(t) => format!("undecodable type={t}"),
             };
             ctx.ev(format!("#{s} recv conn={i} {desc}"));
-            if let Rx::Ping(d) = rx {
-                if self.conns[*i].end_seq.is_none() {
-                    let mut b = BytesMut::new();
-                    b.put_u8(10);
-                    b.put_slice(d);
-                    self.conns[*i].client.send(b.freeze());
-                }
-            }
             self.conns[*i].rx.push((*s, rx.clone()));
         }
         // server-side deaths
